@@ -442,6 +442,8 @@ func checkC04(c *Ctx, r *Report) {
 	r.rule("C04.R4", "BIT STRING unused-bit count within 0..7", 1)
 	r.rule("C04.R5", "BOOLEAN contents 0xFF / 0x00", 2)
 	r.rule("C04.R11", "a declared tag number reaches the encoder in full width: the number parsed from the `ber:` tag is neither parsed nor converted in fewer bits than the member that holds it", 1)
+	r.rule("C04.R12", "the length a string / octet-string encoder announces is the number of octets it writes: len of the value itself, in octets (not a count of characters)", 2)
+	r.rule("C04.R13", "the tag number written for a member comes from its `tagNum:` parameter only (shared with C16.R7)", 1)
 	r.rule("C04.R6", "errors are returned: recursive calls, unsupported constructs, top level", 4)
 	r.rule("C04.R7", "the content encoder is stored on every path that uses it (no nil-interface call)", 2)
 	r.rule("C04.R9", "tag-number, length and INTEGER octet counts are exactly the minimal number of digits for every value (exact interval partition), digits written most significant first", 6)
@@ -550,6 +552,8 @@ func checkC04(c *Ctx, r *Report) {
 
 	// ---- R6 error propagation
 	checkParseWidths(c, r, "C04.R11", c.fn("cdr/asn", "parseFieldParameters"))
+	c04LenIsOctetCount(c, r, "C04.R12")
+	c16TagNumberWriters(c, r, "C04.R13")
 	c04ErrorPropagation(c, r, mk, "C04.R6")
 	top := c.fn("cdr/asn", "BerMarshalWithParams")
 	c04ErrorPropagation(c, r, top, "C04.R6")
@@ -1303,5 +1307,102 @@ func c05TagAcceptRange(c *Ctx, r *Report, rule string) {
 	}
 	if n == 0 {
 		r.proven(rule, fnKey(f)+"|no refusal by tag value", c.rel(f.Pos()), "no error exit of the tag parser is decided by the value of the tag number")
+	}
+}
+
+// c04LenIsOctetCount (C04.R12): encoders whose receiver is a string or a []byte write the
+// receiver with copy; their Len must be len(receiver) - the octet count - and nothing else.
+func c04LenIsOctetCount(c *Ctx, r *Report, rule string) {
+	pkg := c.pkg("cdr/asn")
+	n := 0
+	for _, name := range pkg.Types.Scope().Names() {
+		tn, ok := pkg.Types.Scope().Lookup(name).(*types.TypeName)
+		if !ok {
+			continue
+		}
+		nt, ok := tn.Type().(*types.Named)
+		if !ok {
+			continue
+		}
+		isStr := false
+		switch u := nt.Underlying().(type) {
+		case *types.Basic:
+			isStr = u.Info()&types.IsString != 0
+		case *types.Slice:
+			if b, ok := u.Elem().Underlying().(*types.Basic); ok && b.Kind() == types.Uint8 {
+				isStr = true
+			}
+		}
+		if !isStr {
+			continue
+		}
+		var lenM, encM *ssa.Function
+		for _, f := range c.ModFuncs {
+			if f.Signature.Recv() == nil || f.Parent() != nil {
+				continue
+			}
+			if rt := namedOf(f.Signature.Recv().Type()); rt == nil || rt.Obj() != tn {
+				continue
+			}
+			switch f.Name() {
+			case "Len":
+				lenM = f
+			case "Encode":
+				encM = f
+			}
+		}
+		if lenM == nil || encM == nil || len(lenM.Params) == 0 {
+			continue
+		}
+		n++
+		recv := ssa.Value(lenM.Params[0])
+		bad := ""
+		for _, ri := range returnsOf(lenM) {
+			if len(ri.Vals) != 1 {
+				continue
+			}
+			call, ok := stripConv(ri.Vals[0]).(*ssa.Call)
+			bi, isB := (*ssa.Builtin)(nil), false
+			if ok {
+				bi, isB = call.Call.Value.(*ssa.Builtin)
+			}
+			if !ok || !isB || bi.Name() != "len" || len(call.Call.Args) != 1 {
+				bad = "Len does not return len(receiver) (" + describe(ri.Vals[0]) + ")"
+				continue
+			}
+			arg := call.Call.Args[0]
+			for {
+				if ct, ok := arg.(*ssa.ChangeType); ok {
+					arg = ct.X
+					continue
+				}
+				if cv, ok := arg.(*ssa.Convert); ok {
+					// string <-> []byte keep the octet count; []rune does not
+					okConv := false
+					switch u := cv.Type().Underlying().(type) {
+					case *types.Basic:
+						okConv = u.Info()&types.IsString != 0
+					case *types.Slice:
+						if b, ok := u.Elem().Underlying().(*types.Basic); ok && b.Kind() == types.Uint8 {
+							okConv = true
+						}
+					}
+					if !okConv {
+						bad = "Len counts the elements of " + types.TypeString(cv.Type(), nil) + "(receiver), not the octets of the receiver: for a string with multi-byte characters the announced length is smaller than the octets Encode copies - the contents are cut short"
+						break
+					}
+					arg = cv.X
+					continue
+				}
+				break
+			}
+			if bad == "" && arg != recv {
+				bad = "Len returns the length of " + describe(arg) + ", not of the value Encode writes"
+			}
+		}
+		r.check(bad == "", rule, tn.Name()+"|Len = octets written", c.rel(lenM.Pos()), "Len returns len(receiver), the octets Encode copies", tn.Name()+": "+bad)
+	}
+	if n == 0 {
+		r.viol(rule, "encoders", c.rel(pkg.Syntax[0].Pos()), "no string / octet-string encoder with Len and Encode found (anchor moved)")
 	}
 }
